@@ -3,17 +3,20 @@ LEVEL = 'exploration'
 
 
 def run(ctx):
-    exe = ctx.driver('c17_pubstr', ['c17_pubstr.c'])
+    exe = ctx.driver('c17_pubstr', ['c17_pubstr.c'], wraps=('malloc', 'calloc'))
     n = 24 if ctx.tier == 'quick' else 1400
     shards = 16
     ctx.rule = ('valid publication strings (reference encoder: be64 time | imprint | crc32, base32, groups of 6) for boundary and random '
                 'times x every known algorithm; per string all 31 x length substitutions, all adjacent transpositions, deletions, '
                 'appends, every non-alphabet byte value replacing/inserted; unknown algorithm ids and wrong digest lengths with a '
-                'correct CRC; raw base32/crc32 codec against the reference. distinct = distinct (mutated) strings by 64-bit hash.')
+                'correct CRC; raw base32/crc32 codec against the reference; each allocation inside one decoding call failing once (fresh context, recycle pool '
+                'off / default / pre-filled): the data or a refusal without object, and the string decodes again afterwards. distinct = distinct (mutated) strings by 64-bit hash.')
     ctx.assumptions = ['reference base32/CRC-32/publication-string implementation in harness/c17_pubstr.c (independent of libksi)',
                        'ASan+UBSan build of the library']
-    fin = ctx.run_shards(exe, [[ctx.seed * 1000 + i, n, ['default', 0, 1, 2, 3, 7, 'default', 5][i % 8]] for i in range(shards)])
+    fin = ctx.run_shards(exe, [[ctx.seed * 1000 + i, n, ['default', 0, 1, 2, 3, 7, 'default', 5][i % 8]] for i in range(shards)] + [[ctx.seed, 0, 'oom']])
+    shards += 1
     ctx.require(fin == shards or ctx.violations, 'all shards finish')
     c = ctx.counters
     if not ctx.violations and not ctx.known_printed:
         ctx.require(c.get('mutants_rejected', 0) > 1000 and c.get('roundtrips', 0) > 10 and c.get('live_objects_rechecked', 0) > 500, 'mutants/roundtrips/live objects observed')
+        ctx.require(c.get('oom_refused_cleanly', 0) >= 200 and c.get('oom_decoded_again_afterwards', 0) >= 200, 'decoding under allocation failure observed')
